@@ -418,6 +418,11 @@ impl NameIdBuilder {
                 .find_map(|(p, ns)| if *p == prefix_id { Some(*ns) } else { None })
         });
         let namespace_id = namespace_id.ok_or(())?;
+        // xmlns:p="" leaves p without a namespace to stand for: a name that
+        // uses it has an undeclared prefix
+        if prefix_id != xot.empty_prefix() && namespace_id == xot.no_namespace() {
+            return Err(());
+        }
         let name = Name::new(name.to_string(), namespace_id);
         Ok(xot.name_lookup.get_id_mut(&name))
     }
